@@ -3,6 +3,7 @@ package c20
 import (
 	"context"
 	"fmt"
+	"sort"
 	"strconv"
 	"strings"
 
@@ -853,7 +854,7 @@ func compileFlagsCached(sc int) []bool {
 // ---------------------------------------------------------------------------
 
 type lateResult struct {
-	class     string // "", panic, accepted, changed, modified
+	class     string // panic, accepted, changed, recompiled-differs, modified
 	at        int
 	name      string
 	detail    string
@@ -873,7 +874,16 @@ func (c *checker) checkLate(s lateSeq) {
 		var cands []string
 		seen := map[string]bool{}
 		flags := compileFlagsCached(s.sc)
+		// the Compile alone?
+		if r0, _ := c.runLate(lateSeq{sc: s.sc, init: s.init, idx: []int{s.idx[res.at]}}, false); r0 != nil && r0.at == 0 &&
+			(r0.class == res.class || r0.class == "recompiled-differs") {
+			res.class, res.recompile = r0.class, r0.recompile
+			name = "nothing-but-Compile"
+		}
 		for _, i := range s.idx[:res.at] {
+			if name != "" {
+				break
+			}
 			if flags[i] {
 				continue
 			}
@@ -887,8 +897,12 @@ func (c *checker) checkLate(s lateSeq) {
 				cands = append(cands, n)
 			}
 		}
-		if name == "" {
-			name = strings.Join(cands, "+")
+		if name == "" && len(cands) > 0 {
+			// no operation does it alone (typically two open findings acting together): the signature
+			// names the alphabetically first kind, the detail all of them
+			sort.Strings(cands)
+			name = cands[0]
+			res.detail += "\n(no single late operation of the sequence reproduces this alone; kinds involved: " + strings.Join(cands, ", ") + ")"
 		}
 		if name == "" {
 			name = "nothing-but-Compile"
@@ -912,6 +926,9 @@ func (c *checker) checkLate(s lateSeq) {
 			sig = "C20/retained-object-changes-runnable/" + res.name
 			what = "the runnable returned by the first successful Compile behaves differently after a later operation on an object the caller retained"
 		}
+	case "recompiled-differs":
+		sig = "C20/recompiled-runnable-differs/" + sc.fe
+		what = "Compile of an untouched, already compiled builder with run-time equivalent options gives a runnable that behaves differently from the first one"
 	case "modified":
 		sig = "C20/builder-modified-after-compile/" + sc.fe + "/" + res.name
 		what = "after operations on retained objects, Compile with run-time equivalent options succeeds and gives a runnable that behaves differently from the first one: the compiled graph was modified"
@@ -1013,7 +1030,7 @@ func (c *checker) runLate(s lateSeq, count bool) (*lateResult, *lateWitnessX) {
 			if d, why := im.differs(r2, c); d {
 				if !mutated {
 					w.name = "Compile"
-					return &lateResult{class: "changed", at: pos, name: "Compile", detail: "re-compilation of an untouched builder: " + why, recompile: true}, w
+					return &lateResult{class: "recompiled-differs", at: pos, name: "Compile", detail: why}, w
 				}
 				w.name = op.Name
 				return &lateResult{class: "modified", at: pos, name: op.Name, detail: why}, w
